@@ -226,4 +226,54 @@ func addEnvIntrinsics(m map[string]intrinsic) {
 	}
 	m["sort.Slice"] = sortSlice
 	m["sort.SliceStable"] = sortSlice
+	// civil time stub: verifCivilTime(y, mo, d, h, mi, s, ns) makes a time.Time whose Date(), Clock() and Nanosecond()
+	// return exactly these components (natively: time.Date(..., time.UTC), for valid dates the same). The standard
+	// library's conversion between instants and civil time is outside the claim.
+	m["verif:verifCivilTime"] = func(p *Path, fn *ssa.Function, a []Value, pos token.Pos, caller *ssa.Function) []Value {
+		comps := make([]Value, 7)
+		for i := range comps {
+			comps[i] = IntV{T: p.intOf(a[i]).T}
+		}
+		cell := &ScalarCell{V: TupleV{E: comps}}
+		reg, _ := p.userData["civilCells"].(map[Cell]bool)
+		if reg == nil {
+			reg = map[Cell]bool{}
+			p.userData["civilCells"] = reg
+		}
+		reg[cell] = true
+		return []Value{StructV{F: []Value{IntV{T: p.ctx.BV(64, 0)}, IntV{T: p.ctx.BV(64, 0)}, Ptr{Kind: PCell, Cell: cell}}}}
+	}
+	civil := func(p *Path, v Value) ([]Value, bool) {
+		sv, ok := v.(StructV)
+		if !ok || len(sv.F) != 3 {
+			return nil, false
+		}
+		pt, ok := sv.F[2].(Ptr)
+		if !ok || pt.Kind != PCell {
+			return nil, false
+		}
+		reg, _ := p.userData["civilCells"].(map[Cell]bool)
+		if reg == nil || !reg[pt.Cell] {
+			return nil, false
+		}
+		return pt.Cell.(*ScalarCell).V.(TupleV).E, true
+	}
+	m["(time.Time).Date"] = func(p *Path, fn *ssa.Function, a []Value, pos token.Pos, caller *ssa.Function) []Value {
+		if c, ok := civil(p, a[0]); ok {
+			return []Value{c[0], c[1], c[2]}
+		}
+		return p.execFunction(fn, a, nil)
+	}
+	m["(time.Time).Clock"] = func(p *Path, fn *ssa.Function, a []Value, pos token.Pos, caller *ssa.Function) []Value {
+		if c, ok := civil(p, a[0]); ok {
+			return []Value{c[3], c[4], c[5]}
+		}
+		return p.execFunction(fn, a, nil)
+	}
+	m["(time.Time).Nanosecond"] = func(p *Path, fn *ssa.Function, a []Value, pos token.Pos, caller *ssa.Function) []Value {
+		if c, ok := civil(p, a[0]); ok {
+			return []Value{c[6]}
+		}
+		return p.execFunction(fn, a, nil)
+	}
 }
